@@ -17,6 +17,7 @@ use super::*;
 pub mod big_digit {
     use vstd::prelude::*;
     pub type BigDigit = u64;
+    pub type DoubleBigDigit = u128;
 //@ extract src/lib.rs :: mod big_digit :: const BITS
     pub(crate) const BITS: u8 = BigDigit::BITS as u8;
 //@ end
@@ -42,6 +43,9 @@ impl BigUint {
 //@ stub u_divapi/div_rem
 }
 //@ stub k_div/div_rem_digit
+//@ stub k_mul/mac_with_carry
+//@ stub k_mac3/add2
+//@ stub u_core/biguint_from_vec
 impl vstd::std_specs::convert::FromSpecImpl<u64> for BigUint {
     open spec fn obeys_from_spec() -> bool { false }
     open spec fn from_spec(v: u64) -> BigUint { arbitrary() }
@@ -224,6 +228,84 @@ pub proof fn lemma_rpw_ge_p2(r: nat, k: nat)
         vstd::arithmetic::power2::lemma_pow2_unfold(k);
         assert(rpw(r, (k - 1) as nat) * r >= 2 * p2((k - 1) as nat)) by (nonlinear_arith) requires rpw(r, (k - 1) as nat) >= p2((k - 1) as nat), r >= 2;
     }
+}
+
+
+/// big-endian (Horner) value of the first k digits
+pub open spec fn valbe(s: Seq<u8>, radix: nat, k: nat) -> nat
+    decreases k
+{
+    if k == 0 { 0 } else { valbe(s, radix, (k - 1) as nat) * radix + (s[k - 1] as nat) }
+}
+
+pub proof fn lemma_valbe_ext(s: Seq<u8>, t: Seq<u8>, radix: nat, k: nat)
+    requires forall|i: int| 0 <= i < k ==> s[i] == t[i]
+    ensures valbe(s, radix, k) == valbe(t, radix, k)
+    decreases k
+{
+    if k > 0 { lemma_valbe_ext(s, t, radix, (k - 1) as nat); }
+}
+
+pub proof fn lemma_valbe_bound(s: Seq<u8>, radix: nat, k: nat)
+    requires radix >= 2, k <= s.len(), forall|i: int| 0 <= i < k ==> (#[trigger] s[i] as nat) < radix
+    ensures valbe(s, radix, k) < rpw(radix, k)
+    decreases k
+{
+    lemma_rpw(radix, 0);
+    if k > 0 {
+        lemma_valbe_bound(s, radix, (k - 1) as nat);
+        lemma_rpw(radix, (k - 1) as nat);
+        let a = valbe(s, radix, (k - 1) as nat); let p = rpw(radix, (k - 1) as nat); let d = s[k - 1] as nat;
+        assert(a * radix + d < p * radix) by (nonlinear_arith) requires a < p, d < radix;
+    }
+}
+
+/// Horner value of a concatenation: first a digits, then m more
+pub proof fn lemma_valbe_concat(s: Seq<u8>, radix: nat, a: nat, m: nat)
+    requires radix >= 1, a + m <= s.len()
+    ensures valbe(s, radix, a + m) == valbe(s, radix, a) * rpw(radix, m) + valbe(s.subrange(a as int, (a + m) as int), radix, m)
+    decreases m
+{
+    lemma_rpw(radix, 0);
+    let t = s.subrange(a as int, (a + m) as int);
+    if m == 0 {
+        assert(valbe(s, radix, a) * 1 == valbe(s, radix, a)) by (nonlinear_arith);
+    } else {
+        let m1 = (m - 1) as nat;
+        lemma_valbe_concat(s, radix, a, m1);
+        lemma_valbe_ext(s.subrange(a as int, (a + m1) as int), t, radix, m1);
+        lemma_rpw(radix, m1);
+        let x = valbe(s, radix, a); let p = rpw(radix, m1); let y = valbe(t, radix, m1); let d = s[(a + m1) as int] as nat;
+        assert(t[m1 as int] == s[(a + m1) as int]);
+        assert((x * p + y) * radix + d == x * (p * radix) + (y * radix + d)) by (nonlinear_arith);
+    }
+}
+
+/// one digit of the scalar multiplication chain (carry form)
+pub proof fn lemma_mul_step(f: Seq<u64>, o: Seq<u64>, c: nat, k: nat, c0: nat, c1: nat)
+    requires k < f.len(), k < o.len(),
+        valp(f, k) + pw(k) * c0 == valp(o, k) * c,
+        (f[k as int] as nat) + B() * c1 == (o[k as int] as nat) * c + c0,
+    ensures valp(f, k + 1) + pw(k + 1) * c1 == valp(o, k + 1) * c
+{
+    assert(pw(k + 1) == B() * pw(k));
+    let p = pw(k);
+    let fk = f[k as int] as nat; let ok = o[k as int] as nat;
+    assert(fk * p + (B() * p) * c1 == (ok * p) * c + p * c0) by (nonlinear_arith)
+        requires fk + B() * c1 == ok * c + c0;
+    assert((valp(o, k) + ok * p) * c == valp(o, k) * c + (ok * p) * c) by (nonlinear_arith);
+}
+
+/// data * base + n fits when the top digit of data is zero
+pub proof fn lemma_scale_fits(d: Seq<u64>, base: nat, n: nat)
+    requires d.len() >= 1, d[d.len() - 1] == 0, base < B(), n < base
+    ensures val(d) * base + n < pw(d.len()), val(d) * base < pw(d.len())
+{
+    let l = (d.len() - 1) as nat;
+    lemma_val_drop_last_zero(d);
+    lemma_valp_bound(d.drop_last(), l);
+    assert(pw(l + 1) == B() * pw(l));
+    assert(val(d) * base + n < pw(l) * B()) by (nonlinear_arith) requires val(d) < pw(l), n < base, base < B();
 }
 
 //@ extract src/biguint/convert.rs :: fn generate_radix_bases props=C06
@@ -576,6 +658,197 @@ pub(super) fn to_radix_digits_le(u: &BigUint, radix: u32) -> /*+*/(r: /*-*/Vec<u
 //+}
 
     res
+}
+//@ end
+
+//@ extract src/biguint/convert.rs :: fn from_radix_digits_be rules=R0,R14,R12m3,R12o,R43,R44,R10w props=C06,C14
+fn from_radix_digits_be(v: &[u8], radix: u32) -> /*+*/(res: /*-*/BigUint/*+*/)/*-*/
+//+{
+    requires v@.len() >= 1, 3 <= radix <= 255, !is_pow2_u32(radix), digits_below(v@, radix)
+    ensures res.wf(), res.v() == valbe(v@, radix as nat, v@.len())
+//+}
+{
+//+{
+    let ghost r32 = radix;
+    let ghost rr = radix as nat;
+    let ghost vs = v@;
+    proof {
+        let x = radix;
+        assert(is_pow2_u32(x) == is_pow2_u64(x as u64)) by (bit_vector) requires 3 <= x <= 255;
+        lemma_rpw(rr, 0);
+    }
+//+}
+
+    // Estimate how big the result will be, so we can pre-allocate it.
+    let mut data = Vec::with_capacity(__cap_hint());
+
+    let (base, power) = get_radix_base(radix);
+    let radix = radix as BigDigit;
+//+{
+    let ghost bn = base as nat;
+//+}
+
+    let r = v.len() % power;
+    let i = if r == 0 { power } else { r };
+//+{
+    proof {
+        vstd::arithmetic::div_mod::lemma_fundamental_div_mod(vs.len() as int, power as int);
+        vstd::arithmetic::div_mod::lemma_mod_bound(vs.len() as int, power as int);
+        let q = (vs.len() as int) / (power as int);
+        if r == 0 { assert(q >= 1) by (nonlinear_arith) requires vs.len() as int == (power as int) * q, vs.len() >= 1, power >= 1; assert((power as int) * q >= power as int) by (nonlinear_arith) requires q >= 1, power >= 1; }
+    }
+//+}
+    let (head, tail) = v.split_at(i);
+//+{
+    proof {
+        assert(head@ =~= vs.subrange(0, i as int));
+        assert(tail@ =~= vs.subrange(i as int, vs.len() as int));
+        lemma_valbe_ext(head@, vs, rr, i as nat);
+    }
+//+}
+
+    let first = { let mut acc = 0; let mut i__ = 0; while i__ < head.len()
+//+{
+        invariant i__ <= head@.len(), head@.len() <= power, radix == rr, rr >= 3, acc as nat == valbe(head@, rr, i__ as nat), (acc as nat) < rpw(rr, i__ as nat),
+            bn == rpw(rr, power as nat), bn <= 0xffff_ffff_ffff_ffff, forall|j: int| 0 <= j < head@.len() ==> (#[trigger] head@[j] as nat) < rr,
+        decreases head@.len() - i__
+//+}
+    { let d = head[i__]; i__ += 1;
+//+{
+        proof {
+            lemma_rpw(rr, (i__ - 1) as nat);
+            if i__ < power { lemma_rpw_mono(rr, i__ as nat, power as nat); }
+            let a = acc as nat; let p = rpw(rr, (i__ - 1) as nat);
+            assert(a * rr + (d as nat) < p * rr) by (nonlinear_arith) requires a < p, (d as nat) < rr;
+        }
+//+}
+        acc = acc * radix + BigDigit::from(d); } acc };
+    data.push(first);
+//+{
+    proof {
+        assert(data@ =~= seq![first]);
+        lemma_val_single(first);
+        vstd::arithmetic::div_mod::lemma_fundamental_div_mod(vs.len() as int, power as int);
+        assert((tail@.len() as int) % (power as int) == 0) by {
+            let q = (vs.len() as int) / (power as int);
+            assert((power as int) * (q - 1) == (power as int) * q - power as int) by (nonlinear_arith);
+            if r == 0 {
+                vstd::arithmetic::div_mod::lemma_fundamental_div_mod_converse(tail@.len() as int, power as int, q - 1, 0);
+            } else {
+                vstd::arithmetic::div_mod::lemma_fundamental_div_mod_converse(tail@.len() as int, power as int, q, 0);
+            }
+        }
+    }
+//+}
+
+    { __assert(power != 0); let mut i__ = 0; while i__ < tail.len()
+//+{
+        invariant
+            i__ <= tail@.len(), (tail@.len() - i__) % (power as int) == 0, power >= 1, tail@ =~= vs.subrange(i as int, vs.len() as int), i as nat + tail@.len() == vs.len(),
+            radix == rr, rr >= 3, rr <= 255, r32 as nat == rr, bn == rpw(rr, power as nat), base as nat == bn, bn <= 0xffff_ffff_ffff_ffff,
+            digits_below(vs, r32), vs == v@,
+            data@.len() >= 1, val(data@) == valbe(vs, rr, (i + i__) as nat),
+        decreases tail@.len() - i__
+//+}
+    {
+//+{
+        proof {
+            // a whole chunk is left
+            let rem = (tail@.len() - i__) as int;
+            vstd::arithmetic::div_mod::lemma_fundamental_div_mod(rem, power as int);
+            let q = rem / (power as int);
+            assert(q >= 1) by (nonlinear_arith) requires rem == (power as int) * q, rem >= 1, power >= 1;
+            assert((power as int) * q >= power as int) by (nonlinear_arith) requires q >= 1, power >= 1;
+            assert((power as int) * (q - 1) == (power as int) * q - power as int) by (nonlinear_arith);
+            vstd::arithmetic::div_mod::lemma_fundamental_div_mod_converse(rem - power as int, power as int, q - 1, 0);
+        }
+        let ghost i0 = i__;
+//+}
+        let e__ = if tail.len() - i__ < power { tail.len() } else { i__ + power };
+        let chunk = &tail[i__..e__];
+        i__ = e__;
+//+{
+        let ghost a0 = (i + i0) as nat;
+        proof {
+            assert(chunk@ =~= vs.subrange(a0 as int, (a0 + power) as int));
+            lemma_valbe_concat(vs, rr, a0, power as nat);
+        }
+        let ghost d_in = data@;
+//+}
+        if !__last_is_zero64(&data) {
+            data.push(0);
+//+{
+            proof { lemma_val_concat(d_in, seq![0u64]); lemma_val_single(0u64); assert(data@ =~= d_in + seq![0u64]); assert(pw(d_in.len()) * 0 == 0) by (nonlinear_arith); }
+//+}
+        }
+//+{
+        let ghost d0 = data@;
+        let ghost n0 = d0.len();
+        proof { lemma_rpw(rr, power as nat); lemma_scale_fits(d0, bn, 0); lemma_rpw(rr, 0); }
+//+}
+
+        let mut carry = 0;
+//+{
+        proof { assert(pw(0) * 0 == 0 && 0 * bn == 0) by (nonlinear_arith); }
+//+}
+        { let mut i__ = 0; while i__ < data.len()
+//+{
+            invariant i__ <= n0, data@.len() == n0, d0.len() == n0, carry <= 0xffff_ffff_ffff_ffffu128, base as nat == bn,
+                valp(data@, i__ as nat) + pw(i__ as nat) * (carry as nat) == valp(d0, i__ as nat) * bn,
+                forall|j: int| i__ <= j < n0 ==> data@[j] == d0[j],
+            decreases n0 - i__
+//+}
+        {
+//+{
+            let ghost pre = data@;
+            let ghost c0 = carry as nat;
+//+}
+            { let d = &mut data.as_mut_slice()[i__]; i__ += 1;
+            *d = mac_with_carry(0, *d, base, &mut carry); }
+//+{
+            proof {
+                let k = (i__ - 1) as nat;
+                lemma_valp_ext(pre, data@, k);
+                lemma_mul_step(data@, d0, bn, k, c0, carry as nat);
+            }
+//+}
+        } }
+//+{
+        proof {
+            lemma_pw_pos(n0);
+            assert(carry == 0) by (nonlinear_arith) requires val(data@) + pw(n0) * (carry as nat) == val(d0) * bn, val(d0) * bn < pw(n0), pw(n0) >= 1;
+            assert(pw(n0) * 0 == 0) by (nonlinear_arith);
+        }
+//+}
+
+        let n = { let mut acc = 0; let mut i__ = 0; while i__ < chunk.len()
+//+{
+            invariant i__ <= chunk@.len(), chunk@.len() == power, radix == rr, rr >= 3, acc as nat == valbe(chunk@, rr, i__ as nat), (acc as nat) < rpw(rr, i__ as nat),
+                bn == rpw(rr, power as nat), bn <= 0xffff_ffff_ffff_ffff, forall|j: int| 0 <= j < chunk@.len() ==> (#[trigger] chunk@[j] as nat) < rr,
+            decreases chunk@.len() - i__
+//+}
+        { let d = chunk[i__]; i__ += 1;
+//+{
+            proof {
+                lemma_rpw(rr, (i__ - 1) as nat);
+                if i__ < power { lemma_rpw_mono(rr, i__ as nat, power as nat); }
+                let a = acc as nat; let p = rpw(rr, (i__ - 1) as nat);
+                assert(a * rr + (d as nat) < p * rr) by (nonlinear_arith) requires a < p, (d as nat) < rr;
+            }
+//+}
+            acc = acc * radix + BigDigit::from(d); } acc };
+//+{
+        proof {
+            assert([n]@ =~= seq![n]);
+            lemma_val_single(n);
+            lemma_scale_fits(d0, bn, n as nat);
+            assert(valbe(vs, rr, a0) * bn == val(d0) * bn);
+        }
+//+}
+        add2(&mut data, &[n]);
+    } }
+
+    biguint_from_vec(data)
 }
 //@ end
 
